@@ -2166,8 +2166,10 @@ func sendMsgReadIndexResponse(r *raft, m *pb.Message) {
 	// thinking: use an internally defined context instead of the user given context.
 	// We can express this in terms of the term and index instead of a user-supplied value.
 	// This would allow multiple reads to piggyback on the same message.
-	// only one voting member (the leader) in the cluster: no quorum round is needed
-	if r.trk.IsSingleton() {
+	// only one voting member, the leader itself, in the cluster: no quorum round
+	// is needed. A leader that has been removed from the configuration (and has
+	// not stepped down) is not that member and has to ask the voters.
+	if _, self := r.trk.Voters[0][r.id]; self && r.trk.IsSingleton() {
 		if resp := r.responseToReadIndexReq(m, r.raftLog.committed); resp.GetTo() != None {
 			r.send(resp)
 		}
